@@ -347,6 +347,9 @@ def ufarr_profile(env):
     p.leaf(BOOL, a, b)
     p.op("f", [AR, BOOL], BOOL, lambda m, t, w: m.Function(f, [t, w]))
     p.op("g", [AR], AR, lambda m, t: m.Function(g, [t]))
+    k = p.sym("k", ("Fun", B1, (AR, BOOL)))
+    p.op("k", [AR, BOOL], B1, lambda m, t, w: m.Function(k, [t, w]))
+    p.op("eqk", [B1, B1], BOOL, lambda m, t, w: m.Equals(t, w))
     p.op("iff", [BOOL, BOOL], BOOL, lambda m, t, w: m.Iff(t, w))
     p.op("eqa", [AR, AR], BOOL, lambda m, t, w: m.Equals(t, w))
     p.op("not", [BOOL], BOOL, lambda m, t: m.Not(t))
